@@ -46,6 +46,12 @@ static void run_item(Ctx& ctx, const Item& it) {
               ExecOpts o; o.prefill = (int)((rs + as + bs) % 3);
               execute(c, o, r);
               std::string err = judge_model(c, r);
+              if (err.empty()) {  // once more with all operands packed back to back in one block (disjoint but touching buffers)
+                o.adjacent = 1 + (int)((rs + as) & 1);
+                execute(c, o, r);
+                err = judge_model(c, r);
+                if (!err.empty()) err += " (operands packed back to back)";
+              }
               if (!err.empty()) ctx.violation(c.id, err);
               ctx.end_case(c.nontrivial);
             }
